@@ -64,6 +64,7 @@ pub fn truncate_hash(hash: &MerkleHash) -> (r: u64) ensures r == spec_truncate(*
 //@ end
 
 //@ include prelude/ims_sum.rs
+//@ include prelude/shq_truthful.rs
 //@ include prelude/shq_vocab.rs
 //@ include prelude/ims_vocab.rs
 
